@@ -422,15 +422,64 @@ class C19(Spec):
 
     def make_case(self, seed, tier):
         rng = random.Random(f'C19/{seed}')
+        if seed % 6 == 5:
+            # secure float output to a subset: non-receivers may get frames, but only rows of fresh dealings
+            cfg = sample_cfg(rng, tier, m_min=3, t_min=1, m_max=5)
+            td = rng.choice(({'s': 8, 'e': 8}, {'s': 10, 'e': 6}))
+            R = rng.sample(range(cfg.m), rng.randint(1, cfg.m - 1))
+            prog = {'family': 'flt', 'type': td, 'receivers': None, 'outputs': [], 'tags': [],
+                    'stmts': [['input', 'x1', [], {'value': fltfam.rand_float(rng, td) or 1.5, 'sender': rng.randrange(cfg.m), 'dummy': 1.5}],
+                              ['quiesce', None, [], {'T': 10}], ['output_now', 'y1', ['x1'], {'receivers': R}],
+                              ['quiesce', None, [], {'T': 20}]]}
+            return {'family': 'flt', 'cfg': cfg.to_json(), 'prog': prog, 'seed': seed, 'flt_window': R}
         cfg = sample_cfg(rng, tier, m_min=2)
         prog = iofam.gen_window(rng, cfg, tier)
         return {'family': 'io', 'cfg': cfg.to_json(), 'prog': prog, 'seed': seed}
 
     def monitors(self, case):
+        if case.get('flt_window') is not None:
+            return [M.WindowMonitor(), M.DealMonitor(), FloatWindowJudge(case)]
         return [M.WindowMonitor(), WindowJudge()]
 
     def nontrivial(self, case, res):
         return res.info.get('probes', {}).get('non_receivers_checked', 0) > 0
+
+
+class FloatWindowJudge:
+    """Secure float output to a receiver subset: every frame a non-receiver is sent inside the window must be its
+    row of a fresh degree-t dealing (random shares), nothing else."""
+
+    def __init__(self, case):
+        self.R = set(case['flt_window'])
+
+    def finish(self, w, res):
+        pr = res.info.setdefault('probes', {})
+        if w.outcome != 'ok':
+            return
+        wm = res.info.get('window_monitor')
+        deal = next((m_ for m_ in w.monitors_all if isinstance(m_, M.DealMonitor)), None)
+        frames = wm.window_frames(w)
+        rows = {}
+        for d in deal.dealings:
+            if d['t'] != w.cfg.t or d['t'] < 1:
+                continue
+            for j in range(w.cfg.m):
+                if j != d['pid']:
+                    rows.setdefault((d['pid'], j, d['pc']), []).append(d['field'].to_bytes(d['shares'][j]))
+        R = {r % w.cfg.m for r in self.R}
+        pr['window_ops'] = 1
+        pr['flt_subset_outputs'] = 1
+        for (a, b), fr in sorted(frames.items()):
+            if b in R:
+                continue
+            for label, payload in fr:
+                pr['non_receiver_frames_checked'] = pr.get('non_receiver_frames_checked', 0) + 1
+                if payload not in rows.get((a, b, label), []):
+                    res.violations.append(('invariant:non-receiver-traffic',
+                                           f'secure float output to {sorted(R)}: non-receiver {b} was sent a {len(payload)}-byte message by party {a} '
+                                           f'that is not its row of a fresh degree-{w.cfg.t} dealing'))
+                    return
+        pr['non_receivers_checked'] = pr.get('non_receivers_checked', 0) + (w.cfg.m - len(R))
 
 
 class WindowJudge:
